@@ -270,6 +270,15 @@ def process_tz(tz):
         time.tzset()
 
 
+MONTH_FORMATS = ['%d-%b-%Y', '%d-%B-%Y', '%B %d, %Y', '%d %b %Y', '%b %d %Y']
+
+
+def month_text(d, fmt):
+    """the date written with its English month name (upper-cased for the dashed forms, as a sheet shows 22-MAY-2011)"""
+    t = d.strftime(fmt)
+    return t.upper() if '-' in fmt else t
+
+
 def ms_of(d):
     return (d - D1900) // TD(milliseconds=1)
 
@@ -370,6 +379,15 @@ def _cases(rng, ctx):
         ser = day + 2
         n = rng.choice([ser, float(ser), ser + j / 8.0, ser + 1, ser - 1, ser + (j + 1) / 8.0])
         out.append({'kind': 'cmpn', 'ms': ms, 'n': n, 'side': rng.choice(['l', 'r'])})
+    # -- a date against an ARRAY of day counts / of dates (element-wise: each element as in the scalar case), and a date written
+    #    as text with a month NAME (22-MAY-2011, May 1, 2011 ...) as an operand of + and -
+    for i in range(120 * scale):
+        day = rng.randrange(MS_MAR1 // MS_DAY + 400, MS_END // MS_DAY - 400)
+        ms = day * MS_DAY + rng.choice([0, 0, MS_DAY // 2, MS_DAY // 4])
+        ns = [rng.randrange(-300, 300) for _ in range(rng.choice([1, 2, 3]))]
+        out.append({'kind': 'arr', 'ms': ms, 'ns': ns})
+        day2 = rng.randrange(22000, 49000)          # 1960 .. 2034: years a two- or four-digit reading cannot confuse
+        out.append({'kind': 'montext', 'ms': day2 * MS_DAY, 'fmt': rng.choice(MONTH_FORMATS), 'n': rng.randrange(1, 400)})
     # -- date + n, date - n
     ndays = MS_END // MS_DAY
     for i in range(500 * scale):
@@ -562,6 +580,16 @@ def _impl(c):
     if k == 'cmpn':
         d = dt_of_ms(c['ms'])
         return {'var': [run(('nn' + op + 'x') if c['side'] == 'l' else ('x' + op + 'nn'), x=d, nn=c['n']) for op in CMPS]}
+    if k == 'arr':
+        d = dt_of_ms(c['ms'])
+        ns = list(c['ns'])
+        ds = [dt_of_ms(c['ms'] + n * MS_DAY) for n in ns]
+        return {'var': [run(f, x=d, ns=list(ns), ds=list(ds)) for f in ('x+ns', 'ns+x', 'x-ns', 'ds-x', 'x-ds')]}
+    if k == 'montext':
+        d = dt_of_ms(c['ms'])
+        t = month_text(d, c['fmt'])
+        d2 = dt_of_ms(c['ms'] - c['n'] * MS_DAY)
+        return {'var': [run(f, t=t, y=d2, n=c['n']) for f in ('t-y', 't+n', 't-n', 'y-t', 'DAYS(t,y)')], 'text': t}
     if k == 'add':
         d = dt_of_ms(c['ms'])
         n = c['n']
@@ -806,6 +834,38 @@ def oracle(c, r):
                     l, rr = (('x', 'y') if name == 'var' else (date_lit(da), date_lit(db)))
                     return '%s%s%s with x=%s (serial %r), y=%s (serial %r) gives %r; the serials give %r' % (
                         l, op, rr, da, sa, db, sb, rec_value(rec), w)
+        return None
+    if k == 'arr':
+        ms, ns = c['ms'], c['ns']
+        exact = ms % MS_DAY == 0
+        recs = r['var']
+        def arr_of(rec):
+            return rec['result'] if rec['error'] is None and isinstance(rec['result'], list) and len(rec['result']) == len(ns) else None
+        for f, rec, sign in (('x+ns', recs[0], 1), ('ns+x', recs[1], 1), ('x-ns', recs[2], -1)):
+            a = arr_of(rec)
+            if a is None:
+                return '%s with x=%s, ns=%r gives %r; expected the list of the dates n days later/earlier' % (f, dt_of_ms(ms), ns, rec_value(rec))
+            for n, v in zip(ns, a):
+                if not date_is({'result': v, 'error': None}, ms + sign * n * MS_DAY, exact):
+                    return '%s with x=%s, ns=%r gives %r; the element for n=%d should be the date %s' % (
+                        f, dt_of_ms(ms), ns, a, n, dt_of_ms(ms + sign * n * MS_DAY))
+        for f, rec, sign in (('ds-x', recs[3], 1), ('x-ds', recs[4], -1)):
+            a = arr_of(rec)
+            if a is None:
+                return '%s with x=%s and ds = x+%r days gives %r; expected the list of day differences' % (f, dt_of_ms(ms), ns, rec_value(rec))
+            for n, v in zip(ns, a):
+                if not num_is({'result': v, 'error': None}, Fraction(sign * n), exact):
+                    return '%s with x=%s and ds = x+%r days gives %r; the differences are %r' % (f, dt_of_ms(ms), ns, a, [sign * m for m in ns])
+        return None
+    if k == 'montext':
+        n = c['n']
+        t = r['text']
+        wants = [('t-y', 'num', n), ('t+n', 'date', c['ms'] + n * MS_DAY), ('t-n', 'date', c['ms'] - n * MS_DAY), ('y-t', 'num', -n), ('DAYS(t,y)', 'num', n)]
+        for (f, kind, w), rec in zip(wants, r['var']):
+            ok = num_is(rec, Fraction(w), True) if kind == 'num' else date_is(rec, w, True)
+            if not ok:
+                return '%s with t=%r (the date %s), y = that date - %d days gives %r; expected %s' % (
+                    f, t, dt_of_ms(c['ms']).date(), n, rec_value(rec), w if kind == 'num' else dt_of_ms(w))
         return None
     if k == 'cmpn':
         sx = ref_serial_ms(c['ms'])
